@@ -5,6 +5,7 @@
 import SeataModel.Driver.C12
 import SeataModel.Driver.C13
 import SeataModel.Driver.C04
+import SeataModel.Driver.C07
 
 open Seata.Driver
 
@@ -13,6 +14,7 @@ def dispatch (prop : String) (ws : List String) : String :=
   | "C12" => C12.handle ws
   | "C13" => C13.handle ws
   | "C04" => C04.handle ws
+  | "C07" => C07.handle ws
   | _ => "bad-prop"
 
 partial def loop (hin : IO.FS.Stream) (hout : IO.FS.Stream) : IO Unit := do
